@@ -1,3 +1,5 @@
+//go:build all || c13
+
 package props
 
 import (
@@ -20,16 +22,6 @@ type c13Case struct {
 	White [3]float32 `json:"white"`
 	In    [3]float32 `json:"in"`
 	In2   [3]float32 `json:"in2,omitempty"`
-}
-
-func finite3(a, b, c float32) bool {
-	for _, v := range []float32{a, b, c} {
-		f := float64(v)
-		if math.IsNaN(f) || math.IsInf(f, 0) {
-			return false
-		}
-	}
-	return true
 }
 
 func c13ToLab(c, w [3]float32) (lab cielab.Color, pan any) {
